@@ -125,7 +125,10 @@ int main()
             int kind = vd::ll(w.at(p++));
             const CBlockIndex* t = tip();
             int64_t time = std::max<int64_t>(t->GetMedianTimePast() + 1, H.now);
-            CBlock b = make_block(t, time, kind == 1 ? 100 * COIN : 50 * COIN);
+            // the subsidy of the block's own height (regtest halves at 150, which a long case list reaches): a fixed 50 BTC
+            // made the "fine" block of kind 2 invalid there (thorough-tier false alarm corrected, DESIGN 9.4)
+            const CAmount subsidy = GetBlockSubsidy(t->nHeight + 1, Params().GetConsensus());
+            CBlock b = make_block(t, time, kind == 1 ? 2 * subsidy : subsidy);
             if (kind == 0) { b.hashMerkleRoot = uint256{7}; b.nNonce = 0; while (!CheckProofOfWork(b.GetHash(), b.nBits, Params().GetConsensus())) ++b.nNonce; }   // merkle root does not match
             H.deliver(peer, NetMsg::Make(NetMsgType::BLOCK, TX_WITH_WITNESS(b)));
             H.sync();
